@@ -41,7 +41,7 @@ CFLAGS = ["-std=c++17", "-O1", "-g", "-fno-omit-frame-pointer",
           "-DC04_INTERPOSE_HWC"]
 LDFLAGS = ["-fsanitize=fuzzer,address,undefined"]
 RUNS = {"quick": 64000, "thorough": 4000000}
-FUZZ_SECONDS = {"quick": 45.0, "thorough": 600.0}  # per shard, after the (cached) build
+FUZZ_SECONDS = {"quick": 40.0, "thorough": 600.0}  # per shard, after the (cached) build
 MAX_ROUNDS = 10
 KERNELS = ["permanent", "permanent_laplace", "torontonian", "loop_torontonian", "pfaffian"]
 
@@ -278,6 +278,10 @@ def run_native(ctx, tier: str) -> None:
             for k, v in stats.items():
                 if k.startswith("kernel:") and v:
                     ctx.count("native:" + k.split(":", 1)[1], v)
+                    if k.endswith(":f32"):
+                        ctx.count("overload_32bit", v)
+                elif k == "mult_gt1" and v:
+                    ctx.count("mult_gt1", v)
                 elif k in ("mult_ge17", "total_ge20", "out_of_domain", "f32_overflow_skipped") and v:
                     ctx.count("native:" + k, v)
                 elif k.startswith("skip:") and v:
@@ -314,6 +318,8 @@ def run_native(ctx, tier: str) -> None:
                 skip.append(token)
                 ctx.count("native:exclusion:" + token)
             ctx.exclude(bucket)
+            # a round that ended in a crash does not consume the search budget
+            t_end = max(t_end, time.monotonic() + FUZZ_SECONDS[tier])
         ctx.count("native_rounds", rnd + 1)
         # cases skipped inside the target because of an exclusion are counted per token
     finally:
